@@ -148,7 +148,8 @@ def applyBinNumber (x : α) (op : BinOp) (to : Prim α) : Res α :=
   | .boolean b => floatArith op x (boolF b)
   | _ => .error .incompatibleType
 
-/-- `impl ApplyOp for i64` -/
+/-- `impl ApplyOp for i64` (since 9844b94: a `PositiveInteger` operand enters the operation with its exact
+value, `*self as i128 + *n as i128` narrowed by `i64::try_from`) -/
 def applyBinInteger (i : Int) (op : BinOp) (to : Prim α) : Res α :=
   let intOp (n : Int) (nf : α) : Res α :=
     match op with
@@ -160,18 +161,18 @@ def applyBinInteger (i : Int) (op : BinOp) (to : Prim α) : Res α :=
   match to with
   | .integer n => intOp n (ofInt n)
   | .number n => floatArith op (ofInt i) n
-  | .pint n => intOp (u64AsI64 n) (ofInt (n : Int))
+  | .pint n => intOp (n : Int) (ofInt (n : Int))
   | .boolean b => intOp (boolI b) (boolF b)
   | _ => .error .incompatibleType
 
-/-- `impl ApplyOp for u64` -/
+/-- `impl ApplyOp for u64` (since 9844b94 every result that leaves `u64` is computed exactly and narrowed) -/
 def applyBinPint (u : Nat) (op : BinOp) (to : Prim α) : Res α :=
-  let s : Int := u64AsI64 u
+  let s : Int := (u : Int)
   match to with
   | .pint n =>
     match op with
     | .add => ofU64 (checkedU64 ((u : Int) + (n : Int)))
-    | .sub => ofI64 (checkedI64 (s - u64AsI64 n))
+    | .sub => ofI64 (checkedI64 (s - (n : Int)))
     | .mul => ofU64 (checkedU64 ((u : Int) * (n : Int)))
     | .div => checkedDiv (ofInt (u : Int)) (ofInt (n : Int))
     | _ => .error .unsupportedBin
@@ -224,6 +225,67 @@ def applyBinary (a : Prim α) (op : BinOp) (b : Prim α) : Res α :=
   | .pint u => applyBinPint u op b
   | .other .undefined => .error .undefinedUse
   | .other _ => .error .unsupportedBin
+
+/-! #### the code before `fixes/C18-exact-mixed-integer-arithmetic.diff` (applied as 9844b94): mixed
+`Integer` / `PositiveInteger` arithmetic cast the unsigned operand with `as i64`.  Kept to state what the
+repair changed (`Props/C18.lean`: `u64_operand_wrap_counterexample`, `repair_agrees_binary`). -/
+
+/-- `impl ApplyOp for i64` BEFORE 9844b94: a `PositiveInteger` operand is cast with `as i64` -/
+def applyBinIntegerWrap (i : Int) (op : BinOp) (to : Prim α) : Res α :=
+  let intOp (n : Int) (nf : α) : Res α :=
+    match op with
+    | .add => ofI64 (checkedI64 (i + n))
+    | .sub => ofI64 (checkedI64 (i - n))
+    | .mul => ofI64 (checkedI64 (i * n))
+    | .div => checkedDiv (ofInt i) nf
+    | _ => .error .unsupportedBin
+  match to with
+  | .integer n => intOp n (ofInt n)
+  | .number n => floatArith op (ofInt i) n
+  | .pint n => intOp (u64AsI64 n) (ofInt (n : Int))
+  | .boolean b => intOp (boolI b) (boolF b)
+  | _ => .error .incompatibleType
+
+/-- `impl ApplyOp for u64` BEFORE 9844b94 -/
+def applyBinPintWrap (u : Nat) (op : BinOp) (to : Prim α) : Res α :=
+  let s : Int := u64AsI64 u
+  match to with
+  | .pint n =>
+    match op with
+    | .add => ofU64 (checkedU64 ((u : Int) + (n : Int)))
+    | .sub => ofI64 (checkedI64 (s - u64AsI64 n))
+    | .mul => ofU64 (checkedU64 ((u : Int) * (n : Int)))
+    | .div => checkedDiv (ofInt (u : Int)) (ofInt (n : Int))
+    | _ => .error .unsupportedBin
+  | .integer n =>
+    match op with
+    | .add => ofI64 (checkedI64 (s + n))
+    | .sub => ofI64 (checkedI64 (s - n))
+    | .mul => ofI64 (checkedI64 (s * n))
+    | .div => checkedDiv (ofInt (u : Int)) (ofInt n)
+    | _ => .error .unsupportedBin
+  | .number n => floatArith op (ofInt (u : Int)) n
+  | .boolean b =>
+    match op with
+    | .add => ofU64 (checkedU64 ((u : Int) + boolI b))
+    | .sub => ofI64 (checkedI64 (s - boolI b))
+    | .mul => ofU64 (checkedU64 ((u : Int) * boolI b))
+    | .div => checkedDiv (ofInt (u : Int)) (boolF b)
+    | _ => .error .unsupportedBin
+  | _ => .error .incompatibleType
+
+def applyBinaryWrap (a : Prim α) (op : BinOp) (b : Prim α) : Res α :=
+  match a with
+  | .integer i => applyBinIntegerWrap i op b
+  | .pint u => applyBinPintWrap u op b
+  | a => applyBinary a op b
+
+/-- the mathematical integer a primitive stands for in integer arithmetic -/
+def Prim.intVal : Prim α → Option Int
+  | .integer i => some i
+  | .pint n => some (n : Int)
+  | .boolean b => some (boolI b)
+  | _ => none
 
 /-- `impl ApplyOp for Primitive :: apply_unary_op` (as of /repo 964974c: `checked_neg` for `i64`,
 `0i64.checked_sub_unsigned(u)` for `u64` — the negation that does not fit `i64` is the `Overflow` error). -/
